@@ -267,7 +267,7 @@ func c17Dir() (string, func()) {
 func init() {
 	run.Register(&run.Prop{
 		ID: "C17", Level: "fault_enumeration", MinNontrivial: 1000,
-		Rule: "a case is (generated well-formed multi-line JSON document / jq query / YAML document, preceding valid documents, line terminator LF|CRLF|CR, transport, input mode, ONE injected fault). The fault's offending byte offset is known by construction (JSON: cross-checked by decoding the whole input in memory with encoding/json). The real command is run and its three-line report (header with line number, quoted line, caret line) is compared with the line/column of that byte in the whole input, columns measured with go-runewidth. Queries are additionally parsed with the library and ParseError.Offset/Token must delimit the offending token's bytes. Faults: illegal character at every line start and at sampled token boundaries, broken literals/numbers/escapes, a raw line terminator inside a string (the terminator is the offending byte), truncation (unexpected EOF); queries: operand after operand (incl. interpolated-string opening), operator where an expression must start, mismatched closer, invalid number/escape/unterminated string, multi-byte and stray characters, EOF; YAML: flow closer / nested mapping value / reserved indicator / key-less line / duplicate key (exact position), tab / indentation / unclosed flow (self-consistency only). Non-trivial = the command produced a position report that was compared.",
+		Rule: "a case is (generated well-formed multi-line JSON document / jq query / YAML document, preceding valid documents, line terminator LF|CRLF|CR, transport, input mode, ONE injected fault). The fault's offending byte offset is known by construction (JSON: cross-checked by decoding the whole input in memory with encoding/json). The real command is run and its three-line report (header with line number, quoted line, caret line) is compared with the line/column of that byte in the whole input, columns measured with go-runewidth. Queries are additionally parsed with the library and ParseError.Offset/Token must delimit the offending token's bytes. Faults: illegal character at every line start and at sampled token boundaries, broken literals/numbers/escapes, a raw line terminator inside a string (the terminator is the offending byte), truncation (unexpected EOF); queries: operand after operand (incl. interpolated-string opening), operator where an expression must start, mismatched closer, invalid number/escape/unterminated string, multi-byte and stray characters, EOF; YAML: flow closer / nested mapping value / reserved indicator / key-less line / duplicate key (exact position), tab / indentation / unclosed flow (self-consistency only). Non-trivial = the command produced a position report that was compared. Also: a missing separator followed by a well-formed value or a broken scalar (fault kind sep), white space and line breaks in front of a query argument or file, a consumed prefix of up to 40000 lines in front of a positioned standard input, mixed line terminators, tab-indented documents.",
 		Assumptions: []string{
 			"the offending byte of a JSON fault is the one encoding/json names when it decodes the whole input from memory (no windowing involved); cases where construction and that decoder disagree are counted inconclusive (observed: 0)",
 			"terminal columns are those of go-runewidth under LANG=C (not East Asian, strict emoji neutral), cross-checked against the harness' own width table for the generator alphabet; tabs and combining characters are not generated",
